@@ -4,6 +4,7 @@ from __future__ import annotations
 
 import ast
 
+from ..alpha import Loc, afind, amatch
 from ..cfg import CFG
 from ..const import UNKNOWN, Folder
 from ..flow import Slicer, always_exits, flat_guards, guards, parent_map
@@ -462,11 +463,14 @@ def _r6_zero(model: Model, run: Run, parse, attrs: list[dict]) -> None:
     adds = [c for st in found.body for c in walk_no_nested(st) if isinstance(c, ast.Call) and model.call_matches(mod, c, 'AttributeCollection.add')]
     before = t is not None and found.lineno < t.lineno
     txt = norm(found.test)
-    shape_ok = 'length == 0' in txt and 'not kls.VALID_ZERO' in txt.replace('(', '').replace(')', '')
+    conj = found.test.values if isinstance(found.test, ast.BoolOp) and isinstance(found.test.op, ast.And) else [found.test]
+    zero = [b for c in conj for b in [amatch('V_len == 0', c)] if b is not None]
+    notvz = [b for c in conj for b in [amatch('not V_k.VALID_ZERO', c)] if b is not None]
+    shape_ok = len(zero) == 1 and len(notvz) == 1
     run.check(
         bool(adds) and before and shape_ok,
         parse.qualname,
-        'zero-length branch: if %s' % txt,
+        'zero-length branch tests length == 0 and not VALID_ZERO, precedes the decoder and adds the marker',
         parse.loc(found),
         'the zero-length test must precede the decoder call, test length == 0 and not VALID_ZERO, and add the marker',
     )
